@@ -325,7 +325,18 @@ class Node:
             )
 
         if new_data_id:
-            # data_id (and possibly data) changes: we have to update the map
+            # data_id (and possibly data) changes: make sure that no parent ends
+            # up with two children having the same data_id
+            affected = cur_nodes if (has_clones and with_clones) else [self]
+            for n in affected:
+                for sibling in n._parent._children:  # type: ignore
+                    if sibling._data_id == new_data_id and not any(
+                        sibling is a for a in affected
+                    ):
+                        raise UniqueConstraintError(
+                            f"Node.data already exists in parent: {new_data_id!r}"
+                        )
+            # ... and update the map
             if has_clones:
                 if with_clones:
                     # Move the whole slot (but check if new id already exist)
@@ -341,7 +352,12 @@ class Node:
                             n._data = new_data
                 else:
                     # Move this one node to another slot in the map
-                    node_map[self._data_id].remove(self)
+                    # NOTE: `list.remove()` checks for equality ('=='), not identity!
+                    clones = node_map[self._data_id]
+                    for i, n in enumerate(clones):
+                        if n is self:
+                            clones.pop(i)
+                            break
                     try:  # are we adding to existing clones again?
                         node_map[new_data_id].append(self)
                     except KeyError:  # now a singleton with a new data_id
